@@ -209,6 +209,18 @@ class Axioms:
                 cmp('<', absv(w), absv(m)),
                 implies(cmp('>=', a, 0), cmp('>=', w, 0)),
                 implies(cmp('<=', a, 0), cmp('<=', w, 0))])))
+        # integer division / remainder truncate toward zero (Rust semantics), expressed with SMT-LIB's Euclidean div
+        for fname, lst in apps.items():
+            if not (fname.startswith('idiv_') or fname.startswith('irem_')):
+                continue
+            for w in lst:
+                if not s.once(('idiv', w)):
+                    continue
+                a, b = node(w)[2], node(w)[3]
+                na = neg(a, 'Int')
+                q = ite(cmp('>=', a, 0), T.mk('Int', 'div', a, b), neg(T.mk('Int', 'div', na, b), 'Int'), 'Int')
+                val = q if fname.startswith('idiv_') else arith('-', a, arith('*', b, q, 'Int'), 'Int')
+                s.add('integer-division', implies(cmp('!=', b, 0), cmp('=', w, val)))
         for w in apps.get('fpfmod', []):
             if not s.once(('fpfmod', w)):
                 continue
